@@ -23,8 +23,8 @@ pub const BACKSTOP: u64 = 16384;
 pub const GROWTH: f64 = 3.0;
 pub const GROWTH_MIN_INPUT: u64 = 4096;
 /// wall-time law (ladder only): time per byte of (input + result + templates) at a size where a call takes >= 20 ms may
-/// not exceed 10x its minimum at a smaller size; candidates are re-measured alone (one worker) three times and judged on the per-point minima
-pub const TIME_GROWTH: f64 = 10.0;
+/// not exceed 6x its minimum at a smaller size; candidates are re-measured alone (one worker) three times and judged on the per-point minima
+pub const TIME_GROWTH: f64 = 6.0;
 pub const TIME_FLOOR_US: u64 = 20_000;
 
 fn cache_wire_size(p: &NetflowParser) -> u64 {
@@ -196,6 +196,11 @@ impl C15Space {
             let mut by_rung: BTreeMap<&str, Vec<(usize, u64, u64, u64)>> = BTreeMap::new();
             for (idx, ms) in &r.meas {
                 let (name, n) = &labels[*idx as usize];
+                // points whose INPUT is below 4 KiB are left out (as in the allocation growth law): with a large cached
+                // template and a tiny buffer the fixed per-call cost is divided by W and deflates the baseline
+                if ms[0] < GROWTH_MIN_INPUT {
+                    continue;
+                }
                 by_rung.entry(name.as_str()).or_default().push((*n, (ms[0] + ms[4] + ms[1]).max(1), ms[5], *idx));
             }
             for (name, mut pts) in by_rung {
@@ -358,7 +363,7 @@ pub fn run(tier: &str) -> i32 {
         tier: tier.into(),
         level: "model_checking",
         rule: "every point of the scale ladder (every structural repetition at n in {1..16, 24, 32, ... x1.33/1.5 ..., max-1, max} up to the 65 535-byte datagram limit; quick: 12 sizes per rung) and every case of the V9 and IPFIX grammar products is executed in an isolated worker whose counting allocator measures T (bytes requested during the call), Pk (peak live above entry), R (bytes live at return), with |x| and W (wire size of cached templates). Laws: Pk <= 8|x| + 2R + 64W + 256 KiB; R <= 2048(|x|+W) + 64 KiB; T <= 16384(|x|+R); and per rung, (T - 64W)/(|x|+R) at any n with |x| >= 4 KiB may not exceed 3x its minimum at a smaller such n (super-linear growth). Distinct by (T, Pk, elements)".into(),
-        bounds: json!({"peak_law": "Pk <= 8|x| + 2R + 64W + 262144", "output_law": "R <= 2048(|x|+W) + 65536", "backstop": "T <= 16384(|x|+R)", "growth_law": "(T-64W)/(|x|+R) <= 3 x min at smaller n, |x| >= 4096", "time_growth_law": "wall/(|x|+R+W) <= 10 x min at smaller n for calls >= 20 ms, judged on the per-point minimum of three isolated re-measurements", "live_heap_budget": 4u64<<30}),
+        bounds: json!({"peak_law": "Pk <= 8|x| + 2R + 64W + 262144", "output_law": "R <= 2048(|x|+W) + 65536", "backstop": "T <= 16384(|x|+R)", "growth_law": "(T-64W)/(|x|+R) <= 3 x min at smaller n, |x| >= 4096", "time_growth_law": "wall/(|x|+R+W) <= 6 x min at smaller n with |x| >= 4096, for calls >= 20 ms, judged on the per-point minimum of three isolated re-measurements", "live_heap_budget": 4u64<<30}),
         assumptions: vec!["constants are chosen (about 3x head-room over the measured benign maxima, which are reported under measured_maxima)".into(), "the growth law compares against the minimum ratio at smaller sizes rather than consecutive pairs, because amortised Vec doubling makes consecutive ratios jump by up to 1.5x".into()],
         trusted_base: vec!["alloc.rs counting allocator".into(), "sweep.rs".into()],
         required_tags: vec![],
